@@ -13,6 +13,7 @@ import (
 	"fmt"
 	"io"
 	"net"
+	"runtime"
 	"strings"
 	"sync"
 	"time"
@@ -38,7 +39,7 @@ type step struct {
 	Racy bool   `json:"racy,omitempty"` // do not wait for the effect before the next step
 	IDOf int    `json:"id_of,omitempty"`
 	To   int    `json:"to,omitempty"` // conn: whose listener to connect to / whose id to present (index+1; 0 = self)
-	N    int    `json:"n,omitempty"`  // barrier: number of brokers that must have a request
+	N    int    `json:"n,omitempty"`  // barrier: number of brokers that must have a request; conn: rendezvous size
 
 	// observed
 	Label  int    `json:"label,omitempty"`
@@ -215,10 +216,28 @@ type runner struct {
 
 	mu       sync.Mutex
 	arrivals int
+	ready    int
 	peers    []*peerConn
 	nextLbl  int
 	wg       sync.WaitGroup
 	bound    time.Duration
+}
+
+// wait waits for ch up to the scenario's bound. Once one wait in a scenario has
+// timed out (something was left open that should have been closed: the oracle will
+// report it) later waits are cut short so a broken implementation does not make
+// the whole run crawl.
+func (r *runner) wait(ch <-chan struct{}) bool {
+	r.mu.Lock()
+	b := r.bound
+	r.mu.Unlock()
+	if waitDone(ch, b) {
+		return true
+	}
+	r.mu.Lock()
+	r.bound = 250 * time.Millisecond
+	r.mu.Unlock()
+	return false
 }
 
 func (r *runner) newLabel() int {
@@ -249,28 +268,28 @@ func (r *runner) runScript(ctx context.Context, b *liveBroker) {
 		case "cancel":
 			r.cancel()
 			// wait until the requester has torn the broker connection down
-			waitDone(b.bconn.done, r.bound)
+			r.wait(b.bconn.done)
 		case "reply_ok":
 			_ = ccb.WriteControlAd(ctx, b.strm, ccb.NewAd(map[string]any{ccb.AttrResult: true}))
 		case "reply_fail":
 			_ = ccb.WriteControlAd(ctx, b.strm, ccb.NewAd(map[string]any{ccb.AttrResult: false, ccb.AttrErrorString: st.Msg}))
 			if !st.Racy {
-				waitDone(b.bconn.done, r.bound)
+				r.wait(b.bconn.done)
 			}
 		case "reply_unsup":
 			_ = ccb.WriteControlAd(ctx, b.strm, ccb.NewAd(map[string]any{ccb.AttrResult: false, ccb.AttrCCBStreamingUnsupported: true, ccb.AttrName: "old"}))
 			if !st.Racy {
-				waitDone(b.bconn.done, r.bound)
+				r.wait(b.bconn.done)
 			}
 		case "reply_noresult": // a reply ad without a Result attribute
 			_ = ccb.WriteControlAd(ctx, b.strm, ccb.NewAd(map[string]any{ccb.AttrErrorString: st.Msg}))
 			if !st.Racy {
-				waitDone(b.bconn.done, r.bound)
+				r.wait(b.bconn.done)
 			}
 		case "reply_garbage":
 			_, _ = b.strm.GetConnection().Write([]byte{0xEE, 1, 2, 3, 4, 5, 6, 7, 8, 9})
 			if !st.Racy {
-				waitDone(b.bconn.done, r.bound)
+				r.wait(b.bconn.done)
 			}
 		case "broker_close":
 			_ = b.strm.GetConnection().Close()
@@ -284,7 +303,7 @@ func (r *runner) runScript(ctx context.Context, b *liveBroker) {
 				_ = b.strm.GetConnection().Close()
 			}
 			if !st.Racy && !g.matches(b.id) {
-				waitDone(b.bconn.done, r.bound)
+				r.wait(b.bconn.done)
 			}
 		case "conn":
 			to, of := b, b
@@ -308,6 +327,23 @@ func (r *runner) runScript(ctx context.Context, b *liveBroker) {
 				continue
 			}
 			data, closeAfter, stall := g.wire(of.id)
+			if st.N > 0 {
+				// rendezvous: N scripted peers are connected before any of them
+				// sends its greeting, so that the greetings arrive together
+				r.mu.Lock()
+				r.ready++
+				r.mu.Unlock()
+				dl := time.Now().Add(2 * time.Second)
+				for time.Now().Before(dl) {
+					r.mu.Lock()
+					ok := r.ready >= st.N
+					r.mu.Unlock()
+					if ok {
+						break
+					}
+					runtime.Gosched()
+				}
+			}
 			_, _ = conn.Write(data)
 			if closeAfter {
 				_ = conn.Close()
@@ -322,7 +358,7 @@ func (r *runner) runScript(ctx context.Context, b *liveBroker) {
 			r.wg.Add(1)
 			go func() { defer r.wg.Done(); p.watch() }()
 			if !st.Racy && !stall {
-				waitDone(p.done, r.bound)
+				r.wait(p.done)
 			}
 		default:
 			panic("unknown op " + st.Op)
@@ -334,7 +370,7 @@ func trimSinful(s string) string { return strings.Trim(s, "<>") }
 
 // run executes the scenario against the real ccb.Dial and fills in the observed fields.
 func (sc *scenario) run() {
-	r := &runner{sc: sc, bound: 1500 * time.Millisecond}
+	r := &runner{sc: sc, bound: 2 * time.Second}
 	ctx, cancelAll := context.WithCancel(context.Background())
 	defer cancelAll()
 	var contacts []addresses.CCBContact
@@ -459,8 +495,8 @@ func (sc *scenario) run() {
 		default: // never contacted: its script never runs
 		}
 	}
-	dl := time.Now().Add(r.bound)
 	r.mu.Lock()
+	dl := time.Now().Add(r.bound)
 	peers := append([]*peerConn(nil), r.peers...)
 	r.mu.Unlock()
 	for _, b := range r.brokers {
